@@ -525,6 +525,8 @@ impl Wal {
             if path.exists() {
                 remove_file(path)
                     .wrap_err_with(|| format!("failed to remove closed WAL segment {:?}", path))?;
+                #[cfg(kahflane_turdb_verif)]
+                crate::verif_hooks::io_event("wal_remove", &path.to_string_lossy(), 0, 0);
             }
         }
 
@@ -612,6 +614,8 @@ impl Wal {
             .get_mut()
             .set_len(0)
             .wrap_err("failed to truncate WAL segment file")?;
+        #[cfg(kahflane_turdb_verif)]
+        crate::verif_hooks::io_event("wal_truncate", &segment.path.to_string_lossy(), 0, 0);
 
         segment
             .writer
@@ -660,6 +664,8 @@ impl Wal {
                     if segment_num < current_sequence {
                         let path = entry.path();
                         let _ = remove_file(&path);
+                        #[cfg(kahflane_turdb_verif)]
+                        crate::verif_hooks::io_event("wal_remove", &path.to_string_lossy(), 0, 0);
                     }
                 }
             }
@@ -976,6 +982,8 @@ impl Wal {
             .wrap_err_with(|| format!("failed to create new WAL segment {}", new_sequence))?;
 
         *segment_guard = new_segment;
+        #[cfg(kahflane_turdb_verif)]
+        crate::verif_hooks::io_event("wal_rotate", &new_segment_path.to_string_lossy(), new_sequence, 0);
         drop(segment_guard);
 
         // Add old to closed segments
@@ -1007,6 +1015,8 @@ impl WalSegment {
             .truncate(true)
             .open(path)
             .wrap_err_with(|| format!("failed to create WAL segment at {:?}", path))?;
+        #[cfg(kahflane_turdb_verif)]
+        crate::verif_hooks::io_event("wal_seg_create", &path.to_string_lossy(), sequence, 0);
 
         Ok(Self {
             writer: std::io::BufWriter::with_capacity(WAL_BUFFER_SIZE, file),
@@ -1025,6 +1035,8 @@ impl WalSegment {
 
         file.seek(SeekFrom::Start(0))
             .wrap_err("failed to seek to start of WAL segment")?;
+        #[cfg(kahflane_turdb_verif)]
+        crate::verif_hooks::io_event("wal_seg_open", &path.to_string_lossy(), sequence, 0);
 
         let len = file
             .metadata()
@@ -1068,15 +1080,21 @@ impl WalSegment {
         self.writer
             .write_all(page_data)
             .wrap_err("failed to write WAL frame page data")?;
+        #[cfg(kahflane_turdb_verif)]
+        crate::verif_hooks::io_event("wal_frame", &self.path.to_string_lossy(), header.file_id, header.page_no as u64);
 
         if sync {
             self.writer
                 .flush()
                 .wrap_err("failed to flush WAL buffer")?;
+            #[cfg(kahflane_turdb_verif)]
+            crate::verif_hooks::io_event("wal_flush", &self.path.to_string_lossy(), 0, 0);
             self.writer
                 .get_mut()
                 .sync_data()
                 .wrap_err("failed to sync WAL frame to disk")?;
+            #[cfg(kahflane_turdb_verif)]
+            crate::verif_hooks::io_event("wal_sync", &self.path.to_string_lossy(), 0, 0);
         }
 
         self.offset += (WAL_FRAME_HEADER_SIZE + PAGE_SIZE) as u64;
@@ -1089,6 +1107,10 @@ impl WalSegment {
         self.writer
             .flush()
             .wrap_err("failed to flush WAL buffer")?;
+        #[cfg(kahflane_turdb_verif)]
+        crate::verif_hooks::io_event("wal_flush", &self.path.to_string_lossy(), 0, 0);
+        #[cfg(kahflane_turdb_verif)]
+        let _verif_ev = crate::verif_hooks::IoEventOnDrop::new("wal_sync", &self.path.to_string_lossy(), 0, 0);
         self.writer
             .get_mut()
             .sync_data()
